@@ -368,11 +368,20 @@ func (m Manager) SetNodeResourceCapacity(ctx context.Context, nodename string, n
 }
 
 func (m Manager) mergeCapacity(m1 map[string]*plugintypes.NodeDeployCapacity, m2 map[string]*plugintypes.NodeDeployCapacity) map[string]*plugintypes.NodeDeployCapacity {
+	resp := map[string]*plugintypes.NodeDeployCapacity{}
 	if m1 == nil {
-		return m2
+		// the first answer is weighted like every later one, the caller divides by the weight sum
+		for nodename, info2 := range m2 {
+			resp[nodename] = &plugintypes.NodeDeployCapacity{
+				Capacity: info2.Capacity,
+				Rate:     info2.Rate * info2.Weight,
+				Usage:    info2.Usage * info2.Weight,
+				Weight:   info2.Weight,
+			}
+		}
+		return resp
 	}
 
-	resp := map[string]*plugintypes.NodeDeployCapacity{}
 	for nodename, info1 := range m1 {
 		// all the capacities should > 0
 		if info2, ok := m2[nodename]; ok {
